@@ -72,3 +72,62 @@ Example C14_alloc_instance :
   let f := {| f_bytes := repeat 0 80 ++ [2; 0; 0; 0] ++ repeat 7 100; f_lines := []; f_scan_err := false |} in
   binary_alloc f = 2.
 Proof. vm_compute. reflexivity. Qed.
+
+(* ------------------------------------------------------------------ tie to the source by translation
+   Generated/IoExpr.v is re-translated from the Go AST of render/stl.go on every run (harness/iogen);
+   Io/IoEq.v instantiates os / bufio / encoding/binary with Io/GoSem.v, keeps bufio.Scanner,
+   strings.Fields and strconv.ParseFloat as oracles, and proves the generated LoadSTL,
+   loadSTLBinary, loadSTLAscii, parseFloats equal to the model above for ALL files and oracles
+   (Panic where a slice index or slice expression of the Go code is out of range). *)
+From Sdfx Require Io.GoSem Generated.IoExpr Io.IoEq.
+
+Theorem C14_TRANSL_layout_sizes :
+  GoSem.layout_size IoExpr.STLHeader_layout = 84%nat /\ GoSem.layout_size IoExpr.STLTriangle_layout = 50%nat.
+Proof. exact (conj IoEq.STLHeader_size IoEq.STLTriangle_size). Qed.
+Print Assumptions C14_TRANSL_layout_sizes.
+
+(* binary.Read(LittleEndian, &header): header.Count is the little-endian word at offset 80 *)
+Theorem C14_TRANSL_header_count : forall cur bs, length cur = 81%nat ->
+  GoSem.slot (GoSem.decode_struct GoSem.LittleEndian IoExpr.STLHeader_layout cur bs) 80 = unle (firstn 4 (skipn 80 bs)).
+Proof. exact IoEq.header_decode. Qed.
+Print Assumptions C14_TRANSL_header_count.
+
+Theorem C14_TRANSL_parseFloats : forall pf fz l,
+  IoEq.parseFloats_m pf fz l =
+  match parse_floats pf l with Some o => GoSem.Val o None | None => GoSem.Val [] IoEq.pf_err end.
+Proof. exact IoEq.parseFloats_eq. Qed.
+Print Assumptions C14_TRANSL_parseFloats.
+
+(* the ASCII path: the test len(fields) == 4 && fields[0] == "vertex", parseFloats(fields[1:]),
+   f[0..2], the len(v)%3 test, the grouping loop with v[i+0..2], mesh and scanner.Err() *)
+Theorem C14_TRANSL_loadSTLAscii : forall scan Fields pf fz w,
+  IoEq.outcome_of (IoEq.loadSTLAscii_m scan Fields pf fz w) = load_ascii pf Repaired (IoEq.file_at scan Fields w).
+Proof. exact IoEq.loadSTLAscii_eq. Qed.
+Print Assumptions C14_TRANSL_loadSTLAscii.
+
+(* the binary path, from the current file offset: make([]T, int(header.Count)), one 50-byte
+   binary.Read per element, error on a short read *)
+Theorem C14_TRANSL_loadSTLBinary : forall fz w,
+  IoEq.outcome_of (IoEq.loadSTLBinary_m fz w) = match decode (GoSem.fw_rest w) with Some ts => Mesh ts | None => Err end.
+Proof. exact IoEq.loadSTLBinary_eq. Qed.
+Print Assumptions C14_TRANSL_loadSTLBinary.
+
+(* LoadSTL: Open, Stat, header read (EOF / ErrUnexpectedEOF -> rewind, ASCII), expectedSize =
+   int64(header.Count)*50 + 84 in 64-bit arithmetic, rewind, size == expectedSize -> binary else ASCII *)
+Theorem C14_TRANSL_LoadSTL : forall scan Fields pf fz path w,
+  GoSem.fw_open_err w = None -> bytes_ok (GoSem.fw_disk w) ->
+  IoEq.outcome_of (IoEq.LoadSTL_m scan Fields pf fz path w) = load pf Repaired (IoEq.file_at scan Fields (GoSem.fw_at w 0)).
+Proof. exact IoEq.LoadSTL_eq. Qed.
+Print Assumptions C14_TRANSL_LoadSTL.
+
+Theorem C14_TRANSL_LoadSTL_open_error : forall scan Fields pf fz path w e,
+  GoSem.fw_open_err w = Some e -> IoEq.outcome_of (IoEq.LoadSTL_m scan Fields pf fz path w) = Err.
+Proof. exact IoEq.LoadSTL_open_error. Qed.
+Print Assumptions C14_TRANSL_LoadSTL_open_error.
+
+(* hence the totality theorem speaks about the translated code: the generated LoadSTL never panics *)
+Theorem C14_TRANSL_total : forall scan Fields pf fz path w,
+  GoSem.fw_open_err w = None -> bytes_ok (GoSem.fw_disk w) ->
+  IoEq.outcome_of (IoEq.LoadSTL_m scan Fields pf fz path w) <> Panic.
+Proof. exact IoEq.LoadSTL_total. Qed.
+Print Assumptions C14_TRANSL_total.
